@@ -43,6 +43,9 @@ def main() -> int:
     plan = mod.plan(a.tier)
     sh = Shard(a.prop, a.shard, a.nshards, a.tier, a.seed, a.scratch, plan)
     faulthandler.dump_traceback_later(max(30, sh.plan["timeout_s"] - 15), file=fh, exit=False)
+    import gc
+
+    gc.disable()  # see Shard._maybe_gc: collections only between cases (cachebox GC self-deadlock)
     try:
         if a.replay:
             sh.replaying = True
